@@ -6,7 +6,7 @@ import Mathlib.Tactic.NormNum
 
 Statements over `ℝ` about the code's loop `Ev.imageCube n m x` (`__GetYonX`, point of the cube
 `[-1/2,1/2]^n`) and `Ev.getImage n m lower upper x` (`GetImage`, point of the box), with `int(d)` =
-natural floor (`Ev.Num.floorTrunc`), for every dimension `n ∈ {2,3,4,5}` and **every** density `m`.
+natural floor (`Ev.Num.floorTrunc`), for every dimension `n` with `Ev.DimOK n` and **every** density `m`.
 Vectors are coordinate lists; `Ev.sqDist a b = Σ (a_i - b_i)²`, `Ev.dist2 a b = √(sqDist a b)` is
 the Euclidean distance; `Ev.maxSide lower upper = max_i (upper_i - lower_i)`.
 
@@ -20,20 +20,20 @@ attribute [local instance] Ev.Num.floorTrunc
 /-- **C08 (Hölder, squared form)**: for `x', x'' ∈ [0,1]` with `|x' - x''| ≤ 2^(-p n)`, `p ≤ m`:
 `‖y(x') - y(x'')‖₂² ≤ (n+3)·4^(-p)` — one coordinate moves by less than `2·2^-p`, the others by
 less than `2^-p`. -/
-theorem C08_holder_sq {n : Nat} (hn : 2 ≤ n ∧ n ≤ 5) {m p : Nat} (hp : p ≤ m) {x' x'' : ℝ}
+theorem C08_holder_sq {n : Nat} (hn : Ev.DimOK n) {m p : Nat} (hp : p ≤ m) {x' x'' : ℝ}
     (h0' : 0 ≤ x') (h1' : x' ≤ 1) (h0'' : 0 ≤ x'') (h1'' : x'' ≤ 1)
     (hd : |x' - x''| ≤ 1 / ((2:ℝ)^n)^p) :
     sqDist (imageCube n m x') (imageCube n m x'') ≤ ((n:ℝ) + 3) / 4^p :=
   sqDist_imageCube_le hn hp h0' h1' h0'' h1'' hd
 
 /-- non-vacuity of `C08_holder_sq`: `n = 2`, `m = 3`, `p = 1`, `x' = 1/3`, `x'' = 1/2`. -/
-example : (2 ≤ 2 ∧ 2 ≤ 5) ∧ 1 ≤ 3 ∧ (0:ℝ) ≤ 1/3 ∧ (1/3:ℝ) ≤ 1 ∧ (0:ℝ) ≤ 1/2 ∧ (1/2:ℝ) ≤ 1 ∧
+example : (Ev.DimOK 2) ∧ 1 ≤ 3 ∧ (0:ℝ) ≤ 1/3 ∧ (1/3:ℝ) ≤ 1 ∧ (0:ℝ) ≤ 1/2 ∧ (1/2:ℝ) ≤ 1 ∧
     |(1/3:ℝ) - 1/2| ≤ 1 / ((2:ℝ)^2)^1 := by
-  refine ⟨⟨le_refl _, by omega⟩, by omega, ?_, ?_, ?_, ?_, ?_⟩ <;> norm_num
+  refine ⟨by decide, by omega, ?_, ?_, ?_, ?_, ?_⟩ <;> norm_num
 
 /-- **C08 (Hölder, root-free form)**: for `x', x'' ∈ [0,1]` with `2^(-n m) ≤ |x' - x''| ≤ t^n`:
 `‖y(x') - y(x'')‖₂ ≤ 2·√(n+3)·t`. -/
-theorem C08_holder_rootfree {n : Nat} (hn : 2 ≤ n ∧ n ≤ 5) (m : Nat) {x' x'' : ℝ}
+theorem C08_holder_rootfree {n : Nat} (hn : Ev.DimOK n) (m : Nat) {x' x'' : ℝ}
     (h0' : 0 ≤ x') (h1' : x' ≤ 1) (h0'' : 0 ≤ x'') (h1'' : x'' ≤ 1)
     (hlow : 1 / ((2:ℝ)^n)^m ≤ |x' - x''|) {t : ℝ} (ht : 0 ≤ t) (hd : |x' - x''| ≤ t^n) :
     dist2 (imageCube n m x') (imageCube n m x'') ≤ 2 * Real.sqrt (n + 3) * t :=
@@ -42,7 +42,7 @@ theorem C08_holder_rootfree {n : Nat} (hn : 2 ≤ n ∧ n ≤ 5) (m : Nat) {x' x
 /-- **C08 (Hölder, all pairs, root-free)**: without the lower bound on `|x' - x''|` the inequality
 holds with `max(t, 2^-(m+1))` in place of `t` (below the resolution `2^(-n m)` of the curve the
 image moves by at most one cell in one coordinate and stays in the same or a neighbouring cell). -/
-theorem C08_holder_rootfree_all {n : Nat} (hn : 2 ≤ n ∧ n ≤ 5) (m : Nat) {x' x'' : ℝ}
+theorem C08_holder_rootfree_all {n : Nat} (hn : Ev.DimOK n) (m : Nat) {x' x'' : ℝ}
     (h0' : 0 ≤ x') (h1' : x' ≤ 1) (h0'' : 0 ≤ x'') (h1'' : x'' ≤ 1)
     {t : ℝ} (ht : 0 ≤ t) (hd : |x' - x''| ≤ t^n) :
     dist2 (imageCube n m x') (imageCube n m x'') ≤
@@ -52,34 +52,34 @@ theorem C08_holder_rootfree_all {n : Nat} (hn : 2 ≤ n ∧ n ≤ 5) (m : Nat) {
 /-- **C08 (Hölder)** — the stated inequality on the unit cube: for `n ∈ {2,…,5}`, every `m`, all
 `x', x'' ∈ [0,1]` with `|x' - x''| ≥ 2^(-n m)`:
 `‖y(x') - y(x'')‖₂ ≤ 2·√(n+3)·|x' - x''|^(1/n)`. -/
-theorem C08_holder {n : Nat} (hn : 2 ≤ n ∧ n ≤ 5) (m : Nat) {x' x'' : ℝ}
+theorem C08_holder {n : Nat} (hn : Ev.DimOK n) (m : Nat) {x' x'' : ℝ}
     (h0' : 0 ≤ x') (h1' : x' ≤ 1) (h0'' : 0 ≤ x'') (h1'' : x'' ≤ 1)
     (hlow : 1 / ((2:ℝ)^n)^m ≤ |x' - x''|) :
     dist2 (imageCube n m x') (imageCube n m x'') ≤
       2 * Real.sqrt (n + 3) * |x' - x''| ^ (1 / (n:ℝ)) :=
   C08_holder_rootfree hn m h0' h1' h0'' h1'' hlow (rpow_inv_nonneg n (abs_nonneg _))
-    (le_of_eq (rpow_inv_pow (by omega) (abs_nonneg _)).symm)
+    (le_of_eq (rpow_inv_pow hn.ne_zero (abs_nonneg _)).symm)
 
 /-- **C08 (Hölder, all pairs)**: for all `x', x'' ∈ [0,1]`:
 `‖y(x') - y(x'')‖₂ ≤ 2·√(n+3)·|x' - x''|^(1/n) + √(n+3)·2^-m`. -/
-theorem C08_holder_all {n : Nat} (hn : 2 ≤ n ∧ n ≤ 5) (m : Nat) {x' x'' : ℝ}
+theorem C08_holder_all {n : Nat} (hn : Ev.DimOK n) (m : Nat) {x' x'' : ℝ}
     (h0' : 0 ≤ x') (h1' : x' ≤ 1) (h0'' : 0 ≤ x'') (h1'' : x'' ≤ 1) :
     dist2 (imageCube n m x') (imageCube n m x'') ≤
       2 * Real.sqrt (n + 3) * |x' - x''| ^ (1 / (n:ℝ)) + Real.sqrt (n + 3) / 2^m :=
   dist2_imageCube_le_add hn m h0' h1' h0'' h1'' (rpow_inv_nonneg n (abs_nonneg _))
-    (le_of_eq (rpow_inv_pow (by omega) (abs_nonneg _)).symm)
+    (le_of_eq (rpow_inv_pow hn.ne_zero (abs_nonneg _)).symm)
 
 /-- **C08 (Hölder, box, any side bound)**: after the affine map to the box `[lower, upper]`, for
 every `S ≥ |upper_i - lower_i|` (all `i`):
 `‖GetImage x' - GetImage x''‖₂ ≤ 2·√(n+3)·|x' - x''|^(1/n)·S`. -/
-theorem C08_holder_box_of_le {n : Nat} (hn : 2 ≤ n ∧ n ≤ 5) (m : Nat) (lower upper : List ℝ)
+theorem C08_holder_box_of_le {n : Nat} (hn : Ev.DimOK n) (m : Nat) (lower upper : List ℝ)
     (hl : lower.length = n) (hu : upper.length = n) {S : ℝ}
     (hS : ∀ i, i < n → |getR upper i - getR lower i| ≤ S) {x' x'' : ℝ}
     (h0' : 0 ≤ x') (h1' : x' ≤ 1) (h0'' : 0 ≤ x'') (h1'' : x'' ≤ 1)
     (hlow : 1 / ((2:ℝ)^n)^m ≤ |x' - x''|) :
     dist2 (getImage n m lower upper x') (getImage n m lower upper x'') ≤
       2 * Real.sqrt (n + 3) * |x' - x''| ^ (1 / (n:ℝ)) * S := by
-  have hS0 : 0 ≤ S := le_trans (abs_nonneg _) (hS 0 (by omega))
+  have hS0 : 0 ≤ S := le_trans (abs_nonneg _) (hS 0 hn.pos)
   unfold getImage
   calc _ ≤ S * dist2 (imageCube n m x') (imageCube n m x'') :=
         dist2_p2d_le hl hu (length_imageCube hn m h0' h1') (length_imageCube hn m h0'' h1'') hS0 hS
@@ -90,7 +90,7 @@ theorem C08_holder_box_of_le {n : Nat} (hn : 2 ≤ n ∧ n ≤ 5) (m : Nat) (low
 /-- **C08 (Hölder, box)** — the stated inequality: for a box `lower ≤ upper` (coordinatewise),
 `n ∈ {2,…,5}`, every `m`, all `x', x'' ∈ [0,1]` with `|x' - x''| ≥ 2^(-n m)`:
 `‖GetImage x' - GetImage x''‖₂ ≤ 2·√(n+3)·|x' - x''|^(1/n)·max_i (upper_i - lower_i)`. -/
-theorem C08_holder_box {n : Nat} (hn : 2 ≤ n ∧ n ≤ 5) (m : Nat) (lower upper : List ℝ)
+theorem C08_holder_box {n : Nat} (hn : Ev.DimOK n) (m : Nat) (lower upper : List ℝ)
     (hl : lower.length = n) (hu : upper.length = n)
     (hle : ∀ i (h1 : i < lower.length) (h2 : i < upper.length), lower[i] ≤ upper[i])
     {x' x'' : ℝ} (h0' : 0 ≤ x') (h1' : x' ≤ 1) (h0'' : 0 ≤ x'') (h1'' : x'' ≤ 1)
@@ -108,11 +108,11 @@ theorem C08_holder_box {n : Nat} (hn : 2 ≤ n ∧ n ≤ 5) (m : Nat) (lower upp
 
 /-- non-vacuity of `C08_holder`/`C08_holder_box`: `n = 2`, `m = 2`, the box `[-1,2] × [0,3]`,
 `x' = 1/4`, `x'' = 3/4` (`|Δx| = 1/2 ≥ 1/16`). -/
-example : (2 ≤ 2 ∧ 2 ≤ 5) ∧ [(-1:ℝ), 0].length = 2 ∧ [(2:ℝ), 3].length = 2 ∧
+example : (Ev.DimOK 2) ∧ [(-1:ℝ), 0].length = 2 ∧ [(2:ℝ), 3].length = 2 ∧
     (∀ i (_ : i < [(-1:ℝ), 0].length) (h2 : i < [(2:ℝ), 3].length), [(-1:ℝ), 0][i] ≤ [(2:ℝ), 3][i]) ∧
     (0:ℝ) ≤ 1/4 ∧ (1/4:ℝ) ≤ 1 ∧ (0:ℝ) ≤ 3/4 ∧ (3/4:ℝ) ≤ 1 ∧
     1 / ((2:ℝ)^2)^2 ≤ |(1/4:ℝ) - 3/4| := by
-  refine ⟨⟨le_refl _, by omega⟩, rfl, rfl, ?_, ?_, ?_, ?_, ?_, ?_⟩
+  refine ⟨by decide, rfl, rfl, ?_, ?_, ?_, ?_, ?_, ?_⟩
   · intro i h1 h2
     have : i = 0 ∨ i = 1 := by simp at h1; omega
     rcases this with rfl | rfl <;> norm_num
@@ -121,7 +121,7 @@ example : (2 ≤ 2 ∧ 2 ≤ 5) ∧ [(-1:ℝ), 0].length = 2 ∧ [(2:ℝ), 3].le
 /-- `C08_holder_box` applied to that instance -/
 example : dist2 (getImage 2 2 [(-1:ℝ), 0] [2, 3] (1/4)) (getImage 2 2 [(-1:ℝ), 0] [2, 3] (3/4)) ≤
     2 * Real.sqrt ((2:ℕ) + 3) * |(1/4:ℝ) - 3/4| ^ (1 / ((2:ℕ):ℝ)) * maxSide [(-1:ℝ), 0] [2, 3] :=
-  C08_holder_box (n := 2) (by omega) 2 [(-1:ℝ), 0] [2, 3] rfl rfl
+  C08_holder_box (n := 2) (by decide) 2 [(-1:ℝ), 0] [2, 3] rfl rfl
     (by intro i h1 h2
         have : i = 0 ∨ i = 1 := by simp at h1; omega
         rcases this with rfl | rfl <;> norm_num)
